@@ -177,6 +177,8 @@ class Gen:
             return self.pass_trigger(ctx, ty, d)
         if ty == "u32" and r.random() < 0.10:
             return self.span_probe(ctx)
+        if ty == "u32" and r.random() < 0.15:
+            return self.loop_struct_probe(ctx)
         c = r.random()
         if c < 0.12 and vs:
             return {"k": "var", "n": r.choice(vs)[0]}
@@ -314,6 +316,78 @@ class Gen:
                 return {"k": "block", "ss": [{"k": "letstruct", "name": st["name"], "ns": ns, "e": self.expr(ctx, st, d - 1)}],
                         "tail": {"k": "field", "i": r.choice(idx) + 1, "e": rebuilt}}
         return self.int_expr(ctx, ty, d - 1)
+
+    def loop_struct_probe(self, ctx, force=False):
+        """A nested struct whose inner member is assigned inside a loop while the struct and its inner struct are
+        compared (by snapshot, derived PartialEq) with a target in the same body; u32 result."""
+        r = self.r
+        p = self.pid
+        qi = {"k": "tuple", "ts": [T("u32"), T("u32")], "name": f"Qi{p}"}
+        qo = {"k": "tuple", "ts": [qi, T("u32")], "name": f"Qo{p}"}
+        known = getattr(self, "nested_structs", [])
+        if not any(st["name"] == qi["name"] for st in known):
+            self.nested_structs = known + [qi, qo]
+        u32 = T("u32")
+        vs = self.vars_of(ctx, u32)
+
+        def val():
+            if vs and r.random() < 0.5:
+                return {"k": "var", "n": r.choice(vs)[0]}
+            return {"k": "lit", "v": r.choice([0, 1, 2, 7]), "ty": "u32"}
+        import copy
+        c0 = r.choice([0, 1, 2])
+        d0, e0 = val(), val()
+        lit = lambda v: {"k": "lit", "v": v, "ty": "u32"}
+        mk = lambda c, d, e: {"k": "tuple", "name": qo["name"], "es": [{"k": "tuple", "name": qi["name"], "es": [c, d]}, e]}
+        a, t, i, h1, h2 = (self.fresh(ctx) for _ in range(5))
+        n = r.choice([1, 2, 3, 5])
+        # the target is reached after k <= n increments (most of the time), so that the comparisons inside the loop
+        # change their outcome from one iteration to the next
+        k = r.randint(1, n) if (force or r.random() < 0.85) else n + 1
+        ss = [{"k": "let", "n": a, "mut": True, "ty": qo, "e": mk(lit(c0), d0, e0)},
+              {"k": "let", "n": t, "mut": False, "ty": qo,
+               "e": mk(lit(c0 + k), copy.deepcopy(d0) if (force or r.random() < 0.85) else val(),
+                       copy.deepcopy(e0) if (force or r.random() < 0.85) else val())},
+              {"k": "let", "n": i, "mut": True, "ty": u32, "e": lit(0)},
+              {"k": "let", "n": h1, "mut": True, "ty": u32, "e": lit(0)},
+              {"k": "let", "n": h2, "mut": True, "ty": u32, "e": lit(0)}]
+        var = lambda x: {"k": "var", "n": x}
+        fld = lambda e, k: {"k": "field", "i": k, "e": e}
+        inc = lambda x: {"k": "opset", "n": x, "op": "add", "ty": "u32", "e": lit(1)}
+        iff = lambda c, st: {"k": "expr", "e": {"k": "if", "c": c, "t": {"k": "block", "ss": [st], "tail": NONE},
+                                               "e": {"k": "block", "ss": [], "tail": NONE}}}
+        body = []
+        deep = force or r.random() < 0.9
+        if deep:
+            body.append({"k": "setf", "n": a, "path": [1, 1], "e": {"k": "bin", "op": "add", "ty": "u32", "l": fld(fld(var(a), 1), 1), "r": lit(1)}})
+        else:
+            body.append({"k": "setf", "n": a, "path": [2], "e": {"k": "bin", "op": "add", "ty": "u32", "l": fld(var(a), 2), "r": lit(1)}})
+        cmps = []
+        if force or r.random() < 0.9:
+            cmps.append(iff({"k": "veq", "l": var(a), "r": var(t)}, inc(h1)))
+        if force or r.random() < 0.9:
+            cmps.append(iff({"k": "veq", "l": fld(var(a), 1), "r": fld(var(t), 1)}, inc(h2)))
+        r.shuffle(cmps)
+        body += cmps
+        kind = "loop" if force else r.choice(["loop", "loop", "loop", "while", "for"])
+        cond = {"k": "cmp", "op": "lt", "l": var(i), "r": lit(n)}
+        if kind == "for":
+            j = self.fresh(ctx)
+            ss.append({"k": "expr", "e": {"k": "for", "n": j, "lo": lit(0), "hi": lit(n), "body": {"k": "block", "ss": body, "tail": NONE}}})
+        elif kind == "while":
+            ss.append({"k": "expr", "e": {"k": "while", "c": cond, "body": {"k": "block", "ss": [inc(i)] + body, "tail": NONE}}})
+        else:
+            brk = iff({"k": "not", "e": cond}, {"k": "expr", "e": {"k": "break", "e": var(h1)}})
+            out = self.fresh(ctx)
+            ss.append({"k": "let", "n": out, "mut": False, "ty": u32,
+                       "e": {"k": "loop", "body": {"k": "block", "ss": [brk, inc(i)] + body, "tail": NONE}}})
+            h1 = out
+        res = {"k": "bin", "op": "add", "ty": "u32",
+               "l": {"k": "bin", "op": "add", "ty": "u32",
+                     "l": {"k": "bin", "op": "mul", "ty": "u32", "l": var(h1), "r": lit(100)},
+                     "r": {"k": "bin", "op": "mul", "ty": "u32", "l": var(h2), "r": lit(10)}},
+               "r": fld(fld(var(a), 1), 1) if deep else fld(var(a), 2)}
+        return {"k": "block", "ss": ss, "tail": res}
 
     def span_probe(self, ctx):
         """A buffer padded with the same run-time value many times; spans are taken before and after the last append
@@ -594,9 +668,33 @@ class Gen:
         return ss
 
     # ------------------------------------------------------------------ whole programs
+    def probe_program(self):
+        """A program whose main returns the results of targeted probes directly (always executed, always observed)."""
+        r = self.r
+        p = self.pid
+        u32 = T("u32")
+        params, ptys = ["m0", "m1"], [u32, T("u8")]
+        ctx = Ctx({"k": "tuple", "ts": [u32, u32]}, [(n, t, False) for n, t in zip(params, ptys)], [])
+        x = self.fresh(ctx)
+        pre = [{"k": "let", "n": x, "mut": False, "ty": u32,
+                "e": {"k": "conv", "kind": "into", "frm": "u8", "to": "u32", "e": {"k": "var", "n": "m1"}}}]
+        ctx.vars.append((x, u32, False))
+        first = self.loop_struct_probe(ctx, force=True)
+        second = r.choice([lambda: self.span_probe(ctx), lambda: self.array_probe(ctx, "u32", 1),
+                           lambda: self.loop_struct_probe(ctx), lambda: self.pass_trigger(ctx, "u32", 1)])()
+        es = [first, second]
+        r.shuffle(es)
+        rt = {"k": "tuple", "ts": [u32, u32]}
+        body = {"k": "block", "ss": pre, "tail": {"k": "tuple", "es": es, "name": ""}}
+        main = f"p{p}_main"
+        self.fns[main] = {"params": params, "ptys": ptys, "ret": rt, "body": body, "inline": ""}
+        return main
+
     def program(self, depth=3):
         r = self.r
         p = self.pid
+        if r.random() < 0.12:
+            return self.probe_program()
         # one struct type with scalar members
         if r.random() < 0.7:
             ts = [T(r.choice(["u8", "u16", "u32", "felt", "i8", "i16"])) for _ in range(r.choice([2, 3]))]
@@ -752,6 +850,8 @@ def src(e):
         return "(" + ", ".join(src(x) for x in e["es"]) + ("," if len(e["es"]) == 1 else "") + ")"
     if k == "field":
         return f"({src(e['e'])}).f{e['i']}"
+    if k == "veq":
+        return f"({src(e['l'])} == {src(e['r'])})"
     if k == "enum":
         path = enum_path(e["ety"], e["tag"])
         return path if e["e"]["k"] == "none" else f"{path}({src(e['e'])})"
@@ -842,6 +942,8 @@ def stmt_src(s):
         return f"let {s['name']} {{ " + ", ".join(f"f{i + 1}: {n}" for i, n in enumerate(s["ns"])) + f" }} = {src(s['e'])};"
     if k == "set":
         return f"{s['n']} = {src(s['e'])};"
+    if k == "setf":
+        return s["n"] + "".join(f".f{i}" for i in s["path"]) + f" = {src(s['e'])};"
     if k == "opset":
         return f"{s['n']} {BINOP[s['op']]}= {src(s['e'])};"
     if k == "expr":
@@ -851,7 +953,7 @@ def stmt_src(s):
 
 def render(gen):
     out = []
-    for s in gen.structs:
+    for s in getattr(gen, "nested_structs", []) + gen.structs:
         out.append("#[derive(Copy, Drop, PartialEq, Serde)]")
         out.append(f"struct {s['name']} {{ " + ", ".join(f"f{i + 1}: {cty(t)}" for i, t in enumerate(s["ts"])) + " }")
     for e in gen.enums:
